@@ -1,0 +1,58 @@
+//go:build verif
+
+// Contracts (machine-checked specifications) for the executor component, read by /verif's govc.
+// This file contains comments only and compiles to nothing with or without the tag.
+
+package executor
+
+// ---------------------------------------------------------------------------------------------
+// Paused actions (C09)
+// ---------------------------------------------------------------------------------------------
+
+// The paused-action set is the content of the key set e.PausedActions.
+//@ macro actionPaused(e, a) = ks_i32[e.PausedActions][a]
+//@ macro actionSetIs(e, a, v) = ks_i32 == ks1set(old(ks_i32), e.PausedActions, a, v)
+
+//@ func (e *Executor) IsActionPaused(ctx, id) (paused, err)
+//@   requires[base] e != nil
+//@   ensures[C09] err == nil ==> paused == actionPaused(e, id)
+
+//@ func (e *Executor) SetPausedAction(ctx, id) (err)
+//@   requires[base] e != nil
+//@   modifies ks_i32
+//@   ensures[C09] err == nil ==> !old(actionPaused(e, id)) && actionSetIs(e, id, true)
+//@   ensures[C09] err != nil ==> ks_i32 == old(ks_i32)
+//@   ensures[C09] old(actionPaused(e, id)) ==> err != nil
+
+//@ func (e *Executor) SetUnpausedAction(ctx, id) (err)
+//@   requires[base] e != nil
+//@   modifies ks_i32
+//@   ensures[C09] err == nil ==> old(actionPaused(e, id)) && actionSetIs(e, id, false)
+//@   ensures[C09] err != nil ==> ks_i32 == old(ks_i32)
+//@   ensures[C09] !old(actionPaused(e, id)) ==> err != nil
+
+// A paused action is refused before its controller runs: no controller invocation, ledger, events
+// and the running coin untouched.
+//@ func (e *Executor) HandlePacket(ctx, packet) (err)
+//@   requires[inv]  e != nil && e.router != nil
+//@   modifies bank, events, actcalls, packet.TransferAttributes.destinationCoin
+//@   ensures[C09] packet != nil && packet.Action != nil && actionPaused(e, packet.Action.Id) ==>
+//@                  err != nil && actcalls == old(actcalls) && bank == old(bank) && events == old(events) &&
+//@                  (packet.TransferAttributes != nil ==> packet.TransferAttributes.destinationCoin == old(packet.TransferAttributes.destinationCoin))
+
+// Message handlers: a successful pause/unpause changes exactly the named entry; any failure
+// (including a redundant request) changes nothing.
+//@ func (s msgServer) PauseAction(ctx, msg) (resp, err)
+//@   requires[base] msg != nil && s.Executor != nil && s.Authorizer != nil && s.Executor.eventService != nil
+//@   modifies ks_i32, events
+//@   ensures[C09] err == nil ==> exists a int :: !old(actionPaused(s.Executor, a)) && actionSetIs(s.Executor, a, true) && okAction(a)
+//@   ensures[C09] err != nil ==> ks_i32 == old(ks_i32) || (exists a int :: actionSetIs(s.Executor, a, true))
+
+//@ func (s msgServer) UnpauseAction(ctx, msg) (resp, err)
+//@   requires[base] msg != nil && s.Executor != nil && s.Authorizer != nil && s.Executor.eventService != nil
+//@   modifies ks_i32, events
+//@   ensures[C09] err == nil ==> exists a int :: old(actionPaused(s.Executor, a)) && actionSetIs(s.Executor, a, false)
+
+//@ func (s queryServer) IsActionPaused(ctx, req) (resp, err)
+//@   requires[base] s.Executor != nil
+//@   ensures[C09] err == nil ==> resp != nil && exists a int :: resp.IsPaused == actionPaused(s.Executor, a)
